@@ -34,6 +34,8 @@ pub enum St {
     Collect { inst: usize, seq: Vec<u8>, fault: Option<Fault> },
     /// split with parameters outside the range
     BadParams { s: Scheme, t: usize, n: usize },
+    /// an in-range split that the library refused (index into the failure list)
+    SplitRefused(usize),
 }
 
 #[derive(Clone, Debug, PartialEq)]
@@ -62,6 +64,8 @@ pub struct M08<C: Suite> {
     tier: Tier,
     msg: Vec<u8>,
     insts: Vec<Inst<C>>,
+    /// in-range (scheme, t, n) whose split was refused or panicked
+    failed: Vec<(Scheme, usize, usize, String)>,
     bad: Vec<(usize, usize)>,
     _c: PhantomData<C>,
 }
@@ -77,7 +81,7 @@ fn tn_grid(tier: Tier) -> (Vec<(usize, usize)>, Vec<(usize, usize)>) {
     let big = if tier.thorough() {
         vec![(2, 255), (3, 255), (128, 255), (254, 255), (255, 255), (2, 100), (50, 100)]
     } else {
-        vec![(2, 255), (255, 255)]
+        vec![(2, 255), (255, 255), (2, 254), (3, 128)]
     };
     (small, big)
 }
@@ -87,13 +91,23 @@ impl<C: Suite> M08<C> {
         let msg = msg_of(seed, 40, 3);
         let (small, big) = tn_grid(tier);
         let mut insts = vec![];
+        let mut failed = vec![];
         for s in [Scheme::Basic, Scheme::Pop] {
             for (bigf, list) in [(false, &small), (true, &big)] {
                 for &(t, n) in list.iter() {
                     let sk = SecretKey::<C>::from_hash(format!("c08-{}-{}-{}", s.name(), t, n));
                     let rng = |l: &str| rand_chacha::ChaCha20Rng::from_seed(data32(seed, &format!("c08-split-{}-{}-{}", l, t, n)));
-                    let shares = sk.split_with_rng(t, n, rng("a")).expect("split");
-                    let shares2 = sk.split_with_rng(t, n, rng("b")).expect("split");
+                    let (shares, shares2) = match guard(|| (sk.split_with_rng(t, n, rng("a")), sk.split_with_rng(t, n, rng("b")))) {
+                        Ok((Ok(a), Ok(b))) => (a, b),
+                        Ok((a, _)) => {
+                            failed.push((s, t, n, a.err().map(|e| e.to_string()).unwrap_or("second split failed".into())));
+                            continue;
+                        }
+                        Err(p) => {
+                            failed.push((s, t, n, format!("PANIC {}", p)));
+                            continue;
+                        }
+                    };
                     let other = if s == Scheme::Basic { Scheme::Pop } else { Scheme::Basic };
                     let pks = shares.iter().map(|x| x.public_key().unwrap()).collect();
                     let sigs = shares.iter().map(|x| x.sign(lib_scheme(s), &msg).unwrap()).collect();
@@ -119,6 +133,7 @@ impl<C: Suite> M08<C> {
             tier,
             msg,
             insts,
+            failed,
             bad: vec![(0, 0), (1, 1), (1, 5), (0, 5), (3, 2), (2, 256), (256, 256), (2, 1000)],
             _c: PhantomData,
         }
@@ -141,6 +156,9 @@ impl<C: Suite> Model for M08<C> {
             for &(t, n) in &self.bad {
                 v.push(St::BadParams { s, t, n });
             }
+        }
+        for i in 0..self.failed.len() {
+            v.push(St::SplitRefused(i));
         }
         v
     }
@@ -226,6 +244,7 @@ impl<C: Suite> Model for M08<C> {
     fn describe(&self, st: &St) -> String {
         match st {
             St::BadParams { s, t, n } => format!("{} {} split(threshold={}, limit={}) must be refused", C::G, s.name(), t, n),
+            St::SplitRefused(i) => format!("{} split(threshold={}, limit={}) is in range and must succeed", C::G, self.failed[*i].1, self.failed[*i].2),
             St::Collect { inst, seq, fault } => {
                 let it = &self.insts[*inst];
                 format!("{} {} ({},{}) collected ids {:?} fault {:?}: combine / PublicKey::from_shares / Signature::from_shares", C::G, it.s.name(), it.t, it.n, if seq.len() > 12 { &seq[..12] } else { &seq[..] }, fault)
@@ -247,6 +266,11 @@ impl<C: Suite> Model for M08<C> {
         let g = C::G;
         o.nontrivial = true;
         match st {
+            St::SplitRefused(i) => {
+                let (s, t, n, e) = &self.failed[*i];
+                o.outcome("split-in-range:refused");
+                o.expect(&format!("C08:split-in-range-refused:{}:{}:t={},n={}", g, s.name(), t, n), false, "Ok (2 <= t <= n <= 255)", e);
+            }
             St::BadParams { s, t, n } => {
                 let sk = SecretKey::<C>::from_hash(b"c08-bad-params");
                 let r = guard(|| sk.split_with_rng(*t, *n, rand_chacha::ChaCha20Rng::from_seed([9u8; 32])));
@@ -459,7 +483,7 @@ impl<C: Suite> Model for M08<C> {
 
 fn depth_of<C: Suite>(_m: &M08<C>, s: &St) -> usize {
     match s {
-        St::BadParams { .. } => 0,
+        St::BadParams { .. } | St::SplitRefused(_) => 0,
         St::Collect { seq, fault, .. } => seq.len() + fault.is_some() as usize,
     }
 }
